@@ -1,8 +1,8 @@
 //vp:property C13
 //vp:pkg ./tsdb/wlog
 //vp:roots ./util/compression io
-//vp:budget steps=4000000
-//vp:bounds WL.Log / log / flushPage (writer) followed by wlog.Reader (reader) over an in-memory segment file: a first record of concrete zero bytes sized so that rem in {0,3,6,7,8,9,12,20} bytes remain in the 32 KiB page, then a second record of n in {0,1,5,13} arbitrary bytes (so it fits, exactly fits, or is split First/Last across the page boundary), optionally a third 2-byte record; checksums are an uninterpreted function (identical terms on both sides)
+//vp:budget steps=40000000 alloc=400000
+//vp:bounds WL.Log / log / flushPage (writer) followed by wlog.Reader (reader) over an in-memory segment file: a first record of concrete zero bytes sized so that rem in {0,3,6,7,8,9,12,20} bytes remain in the 32 KiB page, then a second record of n in {0,1,5,13} arbitrary bytes (so it fits, exactly fits, or is split First/Last across the page boundary), optionally a third 2-byte record; a second harness writes a record of concrete zero bytes spanning 1..2 further full pages whose end lies exactly at, one byte before or one byte after a page end, followed by an arbitrary 2-byte record; checksums are an uninterpreted function (identical terms on both sides)
 //vp:assume single segment (segment size 4 pages: nextSegment is never needed), no compression, writes to the segment file succeed
 package wlog
 
@@ -68,6 +68,40 @@ func vpH_C13_wal_page_boundary() {
 			for i := range wrec {
 				vpAssert(got[i] == wrec[i], "record bytes as written")
 			}
+		}
+	}
+	vpAssert(!r.Next(), "nothing after the last record")
+	vpAssert(r.Err() == nil, "clean end of log")
+	vpReach("end")
+}
+
+// A record spanning two or three pages whose last fragment ends exactly at a page end (or one byte
+// before / after it) is terminated properly and everything after it is read back.
+func vpH_C13_wal_multipage_fill() {
+	rem := []int{0, 8, 20}[vpShape("rem", 0, 2)]
+	pages := vpShape("fullpages", 1, 2)
+	delta := vpShape("delta", 0, 2) - 1
+	file := &vpXMemFile{}
+	w := &WL{segmentSize: 8 * pageSize, page: &page{}, segment: &Segment{SegmentFile: file}, compress: compression.None}
+	w.metrics = newWLMetrics(w, nil)
+	rec0 := make([]byte, pageSize-recordHeaderSize-rem)
+	first := 0
+	if rem > recordHeaderSize {
+		first = rem - recordHeaderSize
+	}
+	rec1 := make([]byte, first+pages*(pageSize-recordHeaderSize)+delta) // concrete zero bytes: its fragments' checksums fold
+	rec2 := []byte{vpByte(), vpByte()}
+	vpAssert(w.Log(rec0) == nil, "Log succeeds")
+	vpAssert(w.Log(rec1, rec2) == nil, "Log succeeds")
+	vpAssert(w.page.flushed == w.page.alloc, "after Log returns every byte of the batch has been handed to the segment file")
+	vpObserve("written", len(file.data))
+	r := NewReader(bytes.NewReader(file.data))
+	for k, wrec := range [][]byte{rec0, rec1, rec2} {
+		vpAssert(r.Next(), "every written record is read back")
+		got := r.Record()
+		vpAssert(len(got) == len(wrec), "record length")
+		if k == 2 && len(got) == 2 {
+			vpAssert(got[0] == rec2[0] && got[1] == rec2[1], "record bytes as written")
 		}
 	}
 	vpAssert(!r.Next(), "nothing after the last record")
